@@ -309,6 +309,9 @@ def validate_trace(pid, name, module, trace_path, n_events, constants=None, time
 
     Returns dict(ok, viol, line, states, generated)."""
     c = cfg(spec="TraceSpec", constants=constants, postcondition="TraceAccepted")
+    # long traces (hundreds of thousands of events for multi-GiB inputs) get time in proportion: about 2 500 events per
+    # second on an idle machine, a twentieth of that allowed for when the machine is busy
+    timeout = max(timeout, 300 + n_events // 100)
     res = run_tlc(pid, name, module, c, workers=1, env={"TRACE": trace_path}, deque=True,
                   timeout=timeout, xmx="6g")
     out = {"ok": False, "viols": [], "states": res.distinct, "generated": res.generated, "wall": res.wall}
